@@ -46,15 +46,20 @@ func kafkaIdentity(sc *plScenario) *plScenario {
 }
 
 // pack letters
-func pkIns(ms int64) plPack   { return plPack{Msgs: []plMsg{{Kind: "ins", Ms: ms}}, TickMs: ms, TickLg: 5} }
-func pkDel(ms int64) plPack   { return plPack{Msgs: []plMsg{{Kind: "del", Ms: ms}}, TickMs: ms, TickLg: 5} }
-func pkTick(ms int64) plPack  { return plPack{TickMs: ms, TickLg: 5} }
+func pkIns(ms int64) plPack {
+	return plPack{Msgs: []plMsg{{Kind: "ins", Ms: ms}}, TickMs: ms, TickLg: 5}
+}
+func pkDel(ms int64) plPack {
+	return plPack{Msgs: []plMsg{{Kind: "del", Ms: ms}}, TickMs: ms, TickLg: 5}
+}
+func pkTick(ms int64) plPack { return plPack{TickMs: ms, TickLg: 5} }
 func pkInsDelEq(ms int64) plPack {
 	return plPack{Msgs: []plMsg{{Kind: "ins", Ms: ms}, {Kind: "del", Ms: ms}}, TickMs: ms, TickLg: 5}
 }
 func pkTwoIns(ms int64) plPack {
 	return plPack{Msgs: []plMsg{{Kind: "ins", Ms: ms}, {Kind: "ins", Ms: ms}}, TickMs: ms, TickLg: 5}
 }
+
 // runs of three and more data messages with one source time (a large insert split into several messages, a delete
 // that spans partitions): "equal stays equal" for every member of the run, not only for neighbours
 func pkThreeIns(ms int64) plPack {
@@ -391,6 +396,19 @@ func TestVerifC01Stream(t *testing.T) {
 		c.Shards[0].Script = []plPack{pkIns(1000), pkInsPart(1010), pkDropPart(1020), pkDel(1030)}
 		scs = append(scs, &plScenario{Name: "partition-race", SrcN: 1, TgtN: 1, Colls: []*plColl{c},
 			Drivers: []plDriver{{Kind: "start", Coll: 0}, {Kind: "addpart", Coll: 0, Part: "p1", PartState: pb.PartitionState_PartitionCreated}}})
+	}
+	// ids are allocated by each cluster on its own: the downstream id of one collection may equal the source id of
+	// another one on the same channel (anything that mixes the two id spaces up hits the neighbour)
+	{
+		sc := plSharedScenario("shared:id-coincidence", []plPack{pkIns(1000), pkDropColl(1020)}, []plPack{pkIns(1001), pkInsDelEq(1030)}, 0)
+		sc.Colls[0].TgtID = sc.Colls[1].ID
+		sc.Colls[1].TgtID = sc.Colls[1].ID + 1
+		for _, c := range sc.Colls {
+			for i, sh := range c.Shards {
+				sh.TgtV = fmt.Sprintf("%s_%dv%d", funcutil.ToPhysicalChannel(sh.TgtV), c.TgtID, i)
+			}
+		}
+		scs = append(scs, sc)
 	}
 	// a partition name that is used again: the start-up listing announces the earlier incarnation as dropped (it is gone
 	// downstream too), a message of that incarnation is still in the stream, then the partition is created again under a
